@@ -37,6 +37,22 @@ def _is_bool_array_index(index):
     return len(index) == 1 and np.issubdtype(np.asarray(index[0]).dtype, np.bool_)
 
 
+def _hold_index(index):
+    """Tensors used within an index can later be updated in place (or re-shaped);
+    hold on to the index values that were used in the forward pass.
+
+    Parameters
+    ----------
+    index : Tuple[Any]
+
+    Returns
+    -------
+    Tuple[Any]"""
+    from mygrad.tensor_base import Tensor
+
+    return tuple(np.array(ind.data) if isinstance(ind, Tensor) else ind for ind in index)
+
+
 class GetItem(Operation):
     """Defines the __getitem__ interface for a Tensor, supporting back-propagation
 
@@ -63,7 +79,7 @@ class GetItem(Operation):
         numpy.ndarray
             The array returned by the get-item operation"""
         self.variables = (a,)
-        self.index = index if isinstance(index, tuple) else (index,)
+        self.index = _hold_index(index if isinstance(index, tuple) else (index,))
         out = a.data[index]
 
         self._used_distinct_indices = (
@@ -142,7 +158,7 @@ class SetItem(Operation):
         in which a single element is set multiple times."""
 
         self.variables = (a, b)
-        self.index = index if isinstance(index, tuple) else (index,)
+        self.index = _hold_index(index if isinstance(index, tuple) else (index,))
         out[index] = b.data
         return out
 
